@@ -171,8 +171,8 @@ def cases_of(g, fam):
 
 def _cases_of(g, fam):
     kind, n = fam["kind"], fam.get("n", 0)
-    P = [("p", pretty(r)) for r in g["P"]]
-    V = [("p", pretty(r)) for r in g["V"]]
+    P = [("p", pretty(r)) for r in (g["P"] or [])]
+    V = [("p", pretty(r)) for r in (g["V"] or [])]
     K = g["K"] or []
     arrs = lambda m: [arr(a) for a in lists_upto(P, m)]
     objs = lambda: [("obj", o) for o in all_objs(K, V)]
@@ -313,7 +313,7 @@ def describe(meta, fname, t):
         else:
             job = [jb for jb in g["jobs"] if jb["family"]["kind"] == "FPct"][0]
             ps = job["family"]["ps"]
-            a = lists_upto([("p", pretty(r)) for r in g["P"]], job["family"]["n"])[i]
+            a = lists_upto([("p", pretty(r)) for r in (g["P"] or [])], job["family"]["n"])[i]
             a_txt = rend(arr(a))
             obs = [_obs(g, o) for o in job["obs"][i * len(ps):(i + 1) * len(ps)]]
             law = j
